@@ -764,3 +764,10 @@ fn index_static(header: &Header) -> Option<(usize, bool)> {
         },
     }
 }
+
+#[cfg(feature = "verif")]
+impl Table {
+    pub(crate) fn verif_size(&self) -> (usize, usize) {
+        (self.size, self.max_size)
+    }
+}
